@@ -196,3 +196,69 @@ L2 += induction(
                ("stab.exec_seq", {"PS": "defs_emit(SA, j - 1)", "T": "[Assign(SA[j - 1].symbol, SA[j - 1].expr, True)]", "env0": "env0", "j": "j - 1"})],
     hints_step=[f"env_frame(SA[i].symbol, {_PREV}, {_LHS}, den({_RHS}, {_PREV}))", f"env_frame(SA[i].expr, {_PREV}, {_LHS}, den({_RHS}, {_PREV}))"],
 )
+
+# L3: executing rhs_emit leaves every derivative's value in its slot -------------------------------------------------
+L3 = []
+L3 += induction("L3.emit_len", {"SA": "Seq[Atom]"}, "len(rhs_emit(SA, j)) == ite(j >= 0, j, 0) + count_sd(SA, j)")
+_RE, _REP = "rhs_emit(SA, j)", "rhs_emit(SA, j - 1)"
+_X = "SA[j - 1]"
+_DEF = f"Assign({_X}.symbol, {_X}.expr, True)"
+_OUT = f"Assign(Indexed('values', count_sd(SA, j - 1)), {_X}.symbol, False)"
+L3 += induction(
+    "L3.exec_is_renv", {"SA": "Seq[Atom]", "env0": "Env"},
+    "exec_seq(rhs_emit(SA, j), env0, len(rhs_emit(SA, j))) == renv(SA, env0, j)",
+    uses_step=[("L3.emit_len", {"j": "j - 1"}), ("L3.emit_len", {"j": "j"}),
+               ("stab.exec_seq", {"PS": _REP, "T": f"ite(is_sd({_X}), [{_DEF}, {_OUT}], [{_DEF}])", "env0": "env0", "j": f"len({_REP})"}),
+               ("stab.exec_seq", {"PS": f"{_REP} + [{_DEF}]", "T": f"[{_OUT}]", "env0": "env0", "j": f"len({_REP}) + 1"})],
+)
+_EJ = "renv(SA, env0, j)"
+_EP = "renv(SA, env0, j - 1)"
+_E1 = f"upd({_EP}, {_X}.symbol, den({_X}.expr, {_EP}))"
+_CELL = "Indexed('values', count_sd(SA, j - 1))"
+_HYP = "0 <= i and i < j and topo_i(SA, i, j) and dist_i(SA, i, j) and vfree_i(SA, i, j) and cfree_i(SA, i, j)"
+L3 += induction(
+    "L3.slots_hold_derivative_values", {"SA": "Seq[Atom]", "env0": "Env", "i": "Int"},
+    f"implies({_HYP}, den(SA[i].symbol, {_EJ}) == den(SA[i].expr, {_EJ}) and "
+    f"implies(is_sd(SA[i]), den(Indexed('values', count_sd(SA, i)), {_EJ}) == den(SA[i].expr, {_EJ})))",
+    uses_step=[("L1.count_mono", {"SA": "SA", "i": "i + 1", "j": "j - 1"}), ("L1.count_nonneg", {"SA": "SA", "j": "i"})],
+    hints_step=[f"env_frame(SA[i].symbol, {_EP}, {_X}.symbol, den({_X}.expr, {_EP}))",
+                f"env_frame(SA[i].expr, {_EP}, {_X}.symbol, den({_X}.expr, {_EP}))",
+                f"env_frame(Indexed('values', count_sd(SA, i)), {_EP}, {_X}.symbol, den({_X}.expr, {_EP}))",
+                f"env_frame(SA[i].symbol, {_E1}, {_CELL}, den({_X}.symbol, {_E1}))",
+                f"env_frame(SA[i].expr, {_E1}, {_CELL}, den({_X}.symbol, {_E1}))",
+                f"env_frame(Indexed('values', count_sd(SA, i)), {_E1}, {_CELL}, den({_X}.symbol, {_E1}))"],
+)
+
+# the same for explicit Euler: values[slot of state X] = X + dt * (value of X's derivative expression), X and dt being the inputs
+_EE, _EEP = "euler_emit(SA, dt, vname, j)", "euler_emit(SA, dt, vname, j - 1)"
+_OUTE = f"euler_stmt({_X}, dt, vname, count_sd(SA, j - 1))"
+L3 += induction("L3.euler_len", {"SA": "Seq[Atom]", "dt": "Sym", "vname": "Name"}, f"len({_EE}) == ite(j >= 0, j, 0) + count_sd(SA, j)")
+L3 += induction(
+    "L3.euler_exec_is_renv", {"SA": "Seq[Atom]", "dt": "Sym", "vname": "Name", "env0": "Env"},
+    f"exec_seq({_EE}, env0, len({_EE})) == renv_e(SA, dt, vname, env0, j)",
+    uses_step=[("L3.euler_len", {"j": "j - 1"}), ("L3.euler_len", {"j": "j"}),
+               ("stab.exec_seq", {"PS": _EEP, "T": f"ite(is_sd({_X}), [{_DEF}, {_OUTE}], [{_DEF}])", "env0": "env0", "j": f"len({_EEP})"}),
+               ("stab.exec_seq", {"PS": f"{_EEP} + [{_DEF}]", "T": f"[{_OUTE}]", "env0": "env0", "j": f"len({_EEP}) + 1"})],
+)
+_FJ, _FP = "renv_e(SA, dt, vname, env0, j)", "renv_e(SA, dt, vname, env0, j - 1)"
+_F1 = f"upd({_FP}, {_X}.symbol, den({_X}.expr, {_FP}))"
+_CELLE = "Indexed(vname, count_sd(SA, j - 1))"
+_VALE = f"den({_X}.state.symbol + dt * {_X}.symbol, {_F1})"
+_HYPE = ("0 <= i and i < j and is_sd(SA[i]) and topo_i(SA, i, j) and dist_i(SA, i, j) and vfree_e(SA, vname, i, j) and cfree_e(SA, vname, i, j) "
+         "and inputs_e(SA, dt, vname, i, j)")
+L3 += induction(
+    "L3.euler_inputs_unchanged", {"SA": "Seq[Atom]", "dt": "Sym", "vname": "Name", "env0": "Env", "i": "Int"},
+    f"implies(0 <= i and inputs_e(SA, dt, vname, i, j), den(SA[i].state.symbol, {_FJ}) == den(SA[i].state.symbol, env0) and den(dt, {_FJ}) == den(dt, env0))",
+    hints_step=[f"env_frame({t_}, {_FP}, {_X}.symbol, den({_X}.expr, {_FP}))" for t_ in ("SA[i].state.symbol", "dt")]
+    + [f"env_frame({t_}, {_F1}, {_CELLE}, {_VALE})" for t_ in ("SA[i].state.symbol", "dt")],
+)
+_TERMS = ["SA[i].symbol", "SA[i].expr", "Indexed(vname, count_sd(SA, i))"]
+L3 += induction(
+    "L3.euler_slot_is_state_plus_dt_times_derivative", {"SA": "Seq[Atom]", "dt": "Sym", "vname": "Name", "env0": "Env", "i": "Int"},
+    f"implies({_HYPE}, den(SA[i].symbol, {_FJ}) == den(SA[i].expr, {_FJ}) and "
+    f"den(Indexed(vname, count_sd(SA, i)), {_FJ}) == den(SA[i].state.symbol, env0) + den(dt, env0) * den(SA[i].expr, {_FJ}))",
+    uses_step=[("L1.count_mono", {"SA": "SA", "i": "i + 1", "j": "j - 1"}), ("L1.count_nonneg", {"SA": "SA", "j": "i"}),
+               ("L3.euler_inputs_unchanged", {"j": "j - 1"}), ("L3.euler_inputs_unchanged", {"j": "j"})],
+    hints_step=[f"env_frame({t_}, {_FP}, {_X}.symbol, den({_X}.expr, {_FP}))" for t_ in _TERMS + ["SA[i].state.symbol", "dt"]]
+    + [f"env_frame({t_}, {_F1}, {_CELLE}, {_VALE})" for t_ in _TERMS + ["SA[i].state.symbol", "dt"]],
+)
